@@ -53,6 +53,11 @@ pub enum Mutation {
 	/// only the recipient's payment-proof signature is damaged (applicable when the send asked for a proof): every
 	/// transaction-level check still passes, the refusal comes from the proof check alone
 	PaymentProofSigFlip(u8),
+	/// a dishonest recipient (played by wallet 1's real code on an altered first-round slate) builds its output for
+	/// amount - delta and signs for fee + delta; relabel: 0 reply as produced, 1 reply relabelled Invoice2 carrying
+	/// the altered fee (aims at the invoice branch of finalize, which takes the fee from the reply), 2 reply carrying
+	/// the altered amount and fee with its own state
+	ColludingRecipient { delta: u64, relabel: u8 },
 }
 
 #[derive(Clone, Debug, Serialize, Deserialize)]
@@ -99,6 +104,7 @@ fn mutation_strategy() -> BoxedStrategy<Mutation> {
 		3 => b32().prop_map(|seed| Mutation::AddZeroValueOutput { seed }),
 		2 => any::<u8>().prop_map(Mutation::PartSigFlip),
 		3 => any::<u8>().prop_map(Mutation::PaymentProofSigFlip),
+		4 => (prop_oneof![Just(1u64), Just(1_000_000u64), 1u64..50_000_000], 0u8..3).prop_map(|(delta, relabel)| Mutation::ColludingRecipient { delta, relabel }),
 	]
 	.boxed()
 }
@@ -315,6 +321,7 @@ fn mutate(reply: &mut Slate, m: &Mutation, other_pending: Option<uuid::Uuid>) ->
 			}
 			None => return false,
 		},
+		Mutation::ColludingRecipient { .. } => {}
 		Mutation::PaymentProofSigFlip(b) => match reply.payment_proof.as_mut().and_then(|p| p.receiver_signature.as_mut()) {
 			Some(sig) => {
 				let mut raw = sig.to_bytes();
@@ -515,6 +522,43 @@ impl C02 {
 			.enumerate()
 			.find(|(i, s)| *i != si && s.payer() == w && s.flow == Flow::Send && s.stage < Stage::Finalized && !s.is_cancelled())
 			.map(|(_, s)| s.id);
+		if let Mutation::ColludingRecipient { delta, relabel } = &mutation {
+			if flow > 1 {
+				out.class("mutation-not-applicable");
+				return Ok(());
+			}
+			let mut s1x = wire(&sim.slates[si].s1)?;
+			let fee0 = s1x.fee_fields.fee();
+			let altered_fee = FeeFields::new(0, fee0.saturating_add(*delta));
+			if s1x.amount <= *delta || altered_fee.is_err() {
+				out.class("mutation-not-applicable");
+				return Ok(());
+			}
+			s1x.amount -= *delta;
+			s1x.fee_fields = altered_fee.unwrap();
+			// the same slate id was already received into wallet 1's default account (the genuine reply): the dishonest
+			// twin is produced in its other account
+			match sim.w(other).foreign().receive_tx(&s1x, Some(ACCOUNTS[1]), None) {
+				Ok(r) => reply = r,
+				Err(e) => {
+					out.class("colluding-recipient:not-produced");
+					crate::rt::dbg(&format!("colluding reply not produced: {}", e));
+					return Ok(());
+				}
+			}
+			match relabel {
+				1 => {
+					reply.state = SlateState::Invoice2;
+					reply.fee_fields = s1x.fee_fields.clone();
+				}
+				2 => {
+					reply.amount = s1x.amount;
+					reply.fee_fields = s1x.fee_fields.clone();
+				}
+				_ => {}
+			}
+			out.class(format!("colluding-recipient:relabel={}", relabel));
+		}
 		if !mutate(&mut reply, &mutation, other_pending) {
 			out.class("mutation-not-applicable");
 			return Ok(());
